@@ -35,7 +35,7 @@ TIME_LIMIT = {"quick": 35, "thorough": 700}
 PAIRS = {"quick": 2, "thorough": 40}  # ordered pairs per shard (on top of the fixed decimal pairs)
 REACH = {
     "quick": {"schedules_executed": 5000, "one_preemption_schedules": 4000, "multi_preemption_schedules": 300,
-              "pairs_explored": 20, "decimal_pairs": 4, "stress_ops_compared": 3000},
+              "pairs_explored": 20, "decimal_pairs": 4, "stress_ops_compared": 3000, "fresh_schema_schedules": 300},
     "thorough": {"schedules_executed": 100000},
 }
 
@@ -233,16 +233,23 @@ def run_shard(spec):
         cnt2, res2, _ = sched.count_events(cat[n])
         seq[n] = res
         nev[n] = cnt
-        if not same(res, res2) or cnt != cnt2:
-            sh.errors.append("operation %s is not deterministic when run alone" % n)
-            sh.counters["oracle_errors"] += 1
+        if not same(res, res2):
+            # every operation works on fresh streams with fixed markers: run twice in a row, alone,
+            # it must give the same answer; if not there is no sequential behaviour to compare with
+            sh.violation("concurrent-result-differs", "operation %s run twice in a row in one thread gives %s and then %s"
+                         % (n, printable(res, 150), printable(res2, 150)), {"pair": [n, n], "sequential": True})
             return sh.result()
+        if cnt != cnt2:
+            sh.count("line_event_count_varies")
         sh.count("line_events_profiled", cnt)
     tier = spec["tier"]
     if "replay" in spec:
         import base64, pickle
 
         info = pickle.loads(base64.b64decode(spec["replay"]["pickle"]))
+        sh.case(None)
+        if info.get("sequential") or info.get("stress"):
+            return sh.result()  # the profiling pass above has already re-judged it / not schedulable
         a, b = info["pair"]
         run = sched.Run([cat[x] for x in info["threads"]], sched.preempt_points({tuple(k): v for k, v in info["points"]}))
         res = run.execute(first=info["first"])
@@ -300,6 +307,61 @@ def run_shard(spec):
     finally:
         sys.setswitchinterval(old_iv)
         sys.monitoring.set_events(sched.TOOL, sys.monitoring.events.LINE)
+    # ---- first use of a freshly parsed shared schema by two threads at once: whatever the library
+    # builds lazily per schema object (lookup tables, caches) is built under contention
+    def fresh_schema():
+        syms = ["S%d" % i for i in range(120)]
+        return fa.parse_schema({"type": "record", "name": "Fresh", "namespace": "c18", "fields": [
+            {"name": "e", "type": {"type": "enum", "name": "Big", "symbols": syms}},
+            {"name": "u", "type": ["null", "Big", "string"]},
+            {"name": "m", "type": {"type": "map", "values": "Big"}},
+            {"name": "d", "type": {"type": "bytes", "logicalType": "decimal", "precision": 9, "scale": 2}},
+            {"name": "f", "type": {"type": "fixed", "name": "F8", "size": 8}, "default": "\u0000\u0001\u0002\u0003\u0004\u0005\u0006\u00ff"}]})
+
+    fresh_datum = {"e": "S119", "u": "S118", "m": {"k": "S117", "j": "S3"}, "d": decimal.Decimal("1234567.89")}
+
+    def f_swrite(S):
+        b = io.BytesIO()
+        fa.schemaless_writer(b, S, fresh_datum)
+        return b.getvalue()
+
+    fresh_bytes = f_swrite(fresh_schema())
+    fresh_ops = {
+        "swrite": f_swrite,
+        "validate": lambda S: fa.validate(fresh_datum, S),
+        "sread": lambda S: fa.schemaless_reader(io.BytesIO(fresh_bytes), S),
+        "jwrite": lambda S: (lambda o: (fa.json_writer(o, S, [fresh_datum]), o.getvalue())[1])(io.StringIO()),
+        "cwrite": lambda S: (lambda o: (fa.writer(o, S, [fresh_datum, fresh_datum], sync_marker=b"\x07" * 16), o.getvalue())[1])(io.BytesIO()),
+    }
+    fseq, fnev = {}, {}
+    for n, fn in fresh_ops.items():
+        S1 = fresh_schema()
+        cnt, res, _l = sched.count_events(lambda: fn(S1))
+        fseq[n], fnev[n] = res, cnt
+    fnames = sorted(fresh_ops)
+    fresh_budget = 40 if tier == "quick" else 2000
+    for _k in range(fresh_budget):
+        if sh.out_of_time() or sh.violations:
+            break
+        a, b = rng.choice(fnames), rng.choice(fnames)
+        S2 = fresh_schema()
+        # the event count of a first use under a seeded change may be far larger than profiled: sample widely
+        pnt = rng.randint(1, max(2, fnev[a])) if rng.random() < 0.5 else rng.randint(1, 40 * max(2, fnev[a]))
+        run = sched.Run([lambda: fresh_ops[a](S2), lambda: fresh_ops[b](S2)], sched.preempt_points({(0, pnt): 1}))
+        try:
+            res = run.execute(first=0)
+        except sched.Deadlock:
+            sh.count("deadlocked_runs_inconclusive")
+            continue
+        sh.count("fresh_schema_schedules")
+        sh.count("schedules_executed")
+        sh.case(h64("fresh", a, b, run.signature()), run.switches >= 1)
+        for x, r in zip((a, b), res):
+            if not same(r, fseq[x]):
+                sh.violation("concurrent-result-differs",
+                             "first use of one freshly parsed schema by two threads (%s preempted at event %d by %s): %s returned %s, alone it returns %s"
+                             % (a, pnt, b, x, printable(r, 160), printable(fseq[x], 160)), {"stress": ["fresh", a, b, pnt]})
+                break
     fixed_pairs = [("sread_dec30", "sread_dec2"), ("sread_dec2", "sread_dec30"), ("cread_dec30", "sread_dec9"), ("sread_dec9", "sread_dec30"),
                    ("jwrite_rec", "jwrite_rec_b"), ("cread_rec", "cread_rec_named"), ("cread_rec_named", "cread_rec"),
                    ("sread_rec", "sread_rec_named"), ("jwrite_rec_b", "jwrite_rec"), ("cwrite_rec", "cwrite_rec_deflate"),
